@@ -23,6 +23,14 @@ ObjectSet pins its slices as long as it EXISTS, whatever its `.spec.lifecycleSta
 deletionTimestamp (`gc_keeps_referenced`, `gc_keeps_archived_referenced`, `gc_ignores_lifecycle`; histories include
 lifecycle changes and deletions held back by the finalizer: `history_keeps_everything_loadable`).
 
+API faults are part of the histories (`Op.deployF`, `reconcileF`): a `Reconcile` whose Get / pre-create / Update of
+the ObjectDeployment fails with a non-conflict error, whose Update took effect although an error came back, whose
+Update hit a 409 Conflict (re-Get + retry), or whose slice GC fails at either list or at the first Delete.  An
+Update the API REJECTS ends the call: slice GC does not run, nothing is deleted and the API keeps its template
+(`update_rejected_gc_does_not_run`); under every fault the call satisfies the monitored specification
+(`deploy_fault_monitor_ok`), and histories with faults keep the template STORED in the API and every existing
+ObjectSet loadable (`history_keeps_everything_loadable` covers `deployF`).
+
 Not covered here (built separately on the shared in-memory API store): the differential of a sliced vs. inline
 ObjectSet through the REAL phase reconciler (`sliced_rollout_eq_inline` of DESIGN.md is established here only at
 the per-phase seam, `sliced_eq_inline`).
@@ -33,6 +41,7 @@ import Pko.Model.ChunkRun
 import Pko.Lemmas.C14Chunk
 import Pko.Lemmas.C14Store
 import Pko.Lemmas.C14Deploy
+import Pko.Lemmas.C14Fault
 import Pko.Lemmas.C14Load
 import Pko.Lemmas.C14Term
 import Pko.Drv.C14
@@ -496,6 +505,37 @@ theorem hstep_loadable (limit : Nat) (strat : Strategy) (hash : List Obj → Nat
           cases hdd : decode w'.slices tmpl' with
           | none => simp [hdd] at hres
           | some d => exact ⟨d, rfl⟩
+  | deployF f desired =>
+    simp only [hstep, modelStep]
+    cases hr : reconcileF limit strat hash f w desired with
+    | none => exact hw
+    | some q =>
+      obtain ⟨w', ok, del⟩ := q
+      simp only
+      refine ⟨?_, ?_⟩
+      · intro os hos
+        have hsets : w'.objectSets = w.objectSets := by
+          rcases reconcileF_cases hr with ⟨rfl, _⟩ | ⟨_, _, _, h, _⟩
+          · rfl
+          · exact h
+        rw [hsets] at hos
+        obtain ⟨d, hd⟩ := hw.1 os hos
+        exact ⟨d, reconcileF_keeps_objectsets_loadable hr os hos d hd⟩
+      · -- the template stored in the API: `storedLoadable` of the monitored specification
+        intro t ht
+        have hok := reconcileF_deployOkF (fun _ _ => true) (fun _ _ => rfl) hr
+        simp only [deployOkF, Bool.and_eq_true] at hok
+        have hsl := hok.2
+        simp only [storedLoadable, ht, Option.getD_some, Bool.or_eq_true, Bool.not_eq_eq_eq_not, Bool.not_true] at hsl
+        have hpre : (decode w.slices (w.deploy.getD [])).isSome = true := by
+          cases hwd : w.deploy with
+          | none => rfl
+          | some t0 =>
+            obtain ⟨d, hd⟩ := hw.2 t0 hwd
+            simp [hd]
+        rcases hsl with hsl | hsl
+        · rw [hpre] at hsl; cases hsl
+        · exact Option.isSome_iff_exists.mp hsl
   | snap =>
     simp only [hstep, modelStep, snap]
     cases hd : w.deploy with
@@ -548,6 +588,40 @@ theorem deploy_monitor_ok (limit : Nat) (strat : Strategy) (hash : List Obj → 
     deployOk isHashOf (stateOf w) desired ⟨ok, w'.deploy, del, w'.slices⟩ = true :=
   reconcile_deployOk isHashOf hIs h
 
+/-- **deploy_fault_monitor_ok** (monitor vs. model, one reconcile hit by an API fault): whatever the world and
+the fault, a finished `Reconcile` of the model satisfies the specification the monitor evaluates for such a call
+(`deployOkF`: `lossless`, `failSafeF`, `namedByContent`, `noReuse`, `sameContentSameName`, `gcSafe`,
+`storedLoadable`). -/
+theorem deploy_fault_monitor_ok (limit : Nat) (strat : Strategy) (hash : List Obj → Nat → Name)
+    (isHashOf : Name → List Obj → Bool) (hIs : ∀ X k, isHashOf (hash X k) X = true) (f : DFault)
+    (w w' : World Name) (desired : List (List Obj)) (ok : Bool) (del : List Name)
+    (h : reconcileF limit strat hash f w desired = some (w', ok, del)) :
+    deployOkF isHashOf f (stateOf w) desired ⟨ok, w'.deploy, del, w'.slices⟩ = true :=
+  reconcileF_deployOkF isHashOf hIs h
+
+/-- **update_rejected_gc_does_not_run** (the clause seeded defect C14-5 breaks): when the API rejects the Update of
+the ObjectDeployment with a non-conflict error — at once or on the retry after a 409 Conflict — `Reconcile` fails,
+slice garbage collection does not run (no Delete), the template stored in the API is the one stored before (an
+absent ObjectDeployment was pre-created empty) and every slice that existed still exists unchanged: whatever the
+STORED template and the existing ObjectSets reference is still there, for every world, hash and desired phases. -/
+theorem update_rejected_gc_does_not_run (limit : Nat) (strat : Strategy) (hash : List Obj → Nat → Name)
+    (f : DFault) (hf : f = .update ∨ f = .conflictUpdate)
+    (w w' : World Name) (desired : List (List Obj)) (ok : Bool) (del : List Name)
+    (h : reconcileF limit strat hash f w desired = some (w', ok, del)) :
+    ok = false ∧ del = [] ∧ w'.deploy = some (w.deploy.getD []) ∧
+      (∀ n s, getSlice w.slices n = some s → getSlice w'.slices n = some s) ∧
+      (∀ t d, w.deploy = some t → decode w.slices t = some d → decode w'.slices t = some d) := by
+  have hrej : f.rejectsUpdate = true := by rcases hf with rfl | rfl <;> rfl
+  obtain ⟨h1, h2, h3, h4⟩ := update_rejected_nothing_deleted hrej h
+  exact ⟨h1, h2, h3, h4, fun t d _ hd => decode_ext h4 hd⟩
+
+/-- A 409 Conflict on the Update is invisible: the re-Get + retry of `retry.RetryOnConflict` ends exactly like a
+call that was not disturbed. -/
+theorem conflict_retry_invisible (limit : Nat) (strat : Strategy) (hash : List Obj → Nat → Name)
+    (w : World Name) (desired : List (List Obj)) :
+    reconcileF limit strat hash .conflict w desired = reconcile limit strat hash w desired :=
+  reconcileF_eq_reconcile w desired
+
 /-- **run_monitor_ok** (monitor vs. model, histories): for every op sequence from every world, the observations
 the model produces pass `checkRun` — the very function `Pko.Drv.C14.monitor` applies to the parsed
 implementation trace. -/
@@ -578,6 +652,20 @@ theorem run_monitor_ok (limit : Nat) (strat : Strategy) (hash : List Obj → Nat
           simp [stateOf, hsets]
         simp only [checkRun, specStep, Bool.and_eq_true, hst]
         exact ⟨deploy_monitor_ok limit strat hash isHashOf hIs w w' desired ok del hr, ih w'⟩
+    | deployF f desired =>
+      simp only [modelRun, modelStep]
+      cases hr : reconcileF limit strat hash f w desired with
+      | none => simp only [checkRun, specStep, Bool.true_and]; exact ih w
+      | some q =>
+        obtain ⟨w', ok, del⟩ := q
+        have hsets : w'.objectSets = w.objectSets := by
+          rcases reconcileF_cases hr with ⟨rfl, _⟩ | ⟨_, _, _, h, _⟩
+          · rfl
+          · exact h
+        have hst : ({ stateOf w with tmpl := w'.deploy, store := w'.slices } : SpecState Name) = stateOf w' := by
+          simp [stateOf, hsets]
+        simp only [checkRun, specStep, Bool.and_eq_true, hst]
+        exact ⟨deploy_fault_monitor_ok limit strat hash isHashOf hIs f w w' desired ok del hr, ih w'⟩
     | snap =>
       simp only [modelRun, modelStep, checkRun, specStep_snap, Bool.true_and]
       exact ih _
@@ -886,6 +974,33 @@ example :
     chunkOk 10 .each [o] (.chunks [[o']]) = false ∧ chunkOk 10 .each [o] (.chunks [[o]]) = true ∧
     lossless [[o]] { ok := true, tmpl := some t, deleted := [], store := [(7, sl o')] } = false ∧
     lossless [[o]] { ok := true, tmpl := some t, deleted := [], store := [(7, sl o)] } = true := by
+  decide
+
+/-- Non-vacuity (rejected Update, the situation of seeded defect C14-5): package v1 is rolled out (slice 1, no
+ObjectSet yet); the update to v2 creates slice 2, but the API rejects the Update of the ObjectDeployment: the call
+fails, the stored template still references slice 1 and BOTH slices exist; the retry succeeds, stores the v2
+template and only then collects slice 1.  A lost response (`updateLost`) leaves the v2 template stored and nothing
+deleted.  The specification rejects the observation in which the failed call has run the GC with its in-memory
+template (slice 1 deleted while the stored template references it) and accepts what the model does. -/
+example :
+    let hash : List Obj → Nat → Nat := fun X _ => (X.map (·.id)).sum
+    let o (i : Nat) : Obj := ⟨i, some 1, 0⟩
+    let st := hstep 0 .each hash
+    let w0 : World Nat := { deploy := none, objectSets := [], slices := [] }
+    let w1 := st w0 (.deploy [[o 1]])
+    let w2 := st w1 (.deployF .update [[o 2]])
+    let w3 := st w2 (.deploy [[o 2]])
+    let w2' := st w1 (.deployF .updateLost [[o 2]])
+    w1.deploy = some [{ objects := [], slices := [1] }] ∧
+    w2.deploy = w1.deploy ∧ names w2.slices = [1, 2] ∧
+    w3.deploy = some [{ objects := [], slices := [2] }] ∧ names w3.slices = [2] ∧
+    w2'.deploy = w3.deploy ∧ names w2'.slices = [1, 2] ∧
+    deployOkF (fun _ _ => true) .update (stateOf w1) [[o 2]]
+      { ok := false, tmpl := w1.deploy, deleted := [1], store := erase w2.slices [1] } = false ∧
+    gcSafe (stateOf w1) { ok := false, tmpl := w1.deploy, deleted := [1], store := erase w2.slices [1] } = false ∧
+    storedLoadable (stateOf w1) { ok := false, tmpl := w1.deploy, deleted := [1], store := erase w2.slices [1] } = false ∧
+    deployOkF (fun _ _ => true) .update (stateOf w1) [[o 2]]
+      { ok := false, tmpl := w2.deploy, deleted := [], store := w2.slices } = true := by
   decide
 
 end Pko.Props.C14
